@@ -157,3 +157,59 @@ def rebuilt_after_writes(label, attrs, recv="self", name=None):
         return [(tag, z3.And(*conj))]
     clause.__doc__ = 'derived state rebuilt (%s) after the last write to %s' % (label, sorted(attrs))
     return clause
+
+
+def logged_self(name, result='none'):
+    return {'kind': 'logged', 'result': result, 'override': True, 'label': name, 'doc': 'builder %s (verified by its own contract)' % name}
+
+
+def method_reads(tree, file, cls, name, depth=2):
+    """Read set of a method: attributes of self it loads, transitively through methods of self it calls (resolved along the MRO)."""
+    ci, fn = tree.lookup_method(cls, name)
+    if fn is None:
+        return set()
+    out = set(self_attrs_read(fn))
+    if depth > 0:
+        for n in _ast.walk(fn):
+            if isinstance(n, _ast.Call) and isinstance(n.func, _ast.Attribute) and isinstance(n.func.value, _ast.Name) and n.func.value.id == 'self':
+                out |= method_reads(tree, file, cls, n.func.attr, depth - 1)
+    # properties of self read by the method (self.bins -> _bins)
+    for a in list(out):
+        ci2, prop = tree.lookup_property(cls, a)
+        if prop is not None and 'get' in prop:
+            out |= self_attrs_read(prop['get'])
+    return out
+
+
+def setter_contracts(reg, PROP, tree, file, cls, builder, label=None, recv="self", extra_depends=(), externals=None, sorts=None, skip=()):
+    """For every setter of `cls` that writes an attribute in the read set of `builder`: it must end with the builder (logged) run after
+    its last write; a rejected value raises ValueError and changes nothing."""
+    tree.prefer_stem = tree.abspath(file).rsplit('.', 1)[0]
+    depends = (method_reads(tree, file, cls, builder) if builder else set()) | set(extra_depends)
+    label = label or builder
+    ext = dict(externals or {})
+    if builder:
+        ext['%s.%s' % (cls, builder)] = logged_self(builder)
+        for nm in tree.mro(cls)[1:]:
+            if tree.lookup_method(nm, builder)[1] is not None:
+                ext['%s.%s' % (nm, builder)] = logged_self(builder)
+    n = 0
+    for nm in tree.mro(cls):
+        ci = tree.class_info(nm)
+        if ci is None:
+            continue
+        for prop, fn in class_setters(tree, ci.file, nm).items():
+            if prop in skip:
+                continue
+            writes = self_attrs_written(fn)
+            if not (writes & depends):
+                continue
+            n += 1
+            reg.contract(ci.file, "%s.%s.setter" % (nm, prop), PROP, name='%s:%s' % (cls, label), self_cls=cls, sorts=dict(sorts or {}),
+                externals=ext, raises_any=["ValueError"],
+                ensures=[("coherent", rebuilt_after_writes(label, sorted(writes & depends), recv=recv,
+                                                           name='coherence.%s.%s' % (prop, label)))],
+                note='setter %s writes %s which %s reads' % (prop, sorted(writes & depends), label))
+    return depends, n
+
+
